@@ -44,6 +44,40 @@ ReadyZ(k, iv) == StepWork(IterInit(Load(k, iv), 32))                  \* 32 init
 ZucKS(k, iv, n) ==
   FoldLeft(LAMBDA a, t : LET X == BR(a.st.s) IN [st |-> StepWork(a.st), out |-> Append(a.out, XorP(FOut(a.st, X), X[4]))],
            [st |-> ReadyZ(k, iv), out |-> <<>>], SubSeq([t \in 1..n |-> t], 1, n)).out
+\* ---- the rare corners of the arithmetic modulo 2^31-1 (tools/zuccorners finds parameter points that reach them; stage A of
+\* C06 / C07 re-establishes with THIS model that each frozen point does, and the points are part of the generated cases).
+\* State before clock c: clocks 1..32 are the initialisation rounds, 33 the discarded work round, 34.. the rounds after each word.
+RECURSIVE IterWork(_,_)
+IterWork(st, n) == IF n = 0 THEN st ELSE IterWork(StepWork(st), n - 1)
+StateBefore(k, iv, c) == IF c <= 33 THEN IterInit(Load(k, iv), c - 1) ELSE IterWork(IterInit(Load(k, iv), 32), c - 33)
+\* the addends of the feedback in the order of Feedback (u only in initialisation mode and only when it is not zero)
+Terms(st, initMode) ==
+  LET s == st.s  u == Shr1(FOut(st, BR(s))) IN
+  <<s[1], Rot31(s[1], 8), Rot31(s[5], 20), Rot31(s[11], 21), Rot31(s[14], 17), Rot31(s[16], 15)>> \o (IF initMode /\ u # 0 THEN <<u>> ELSE <<>>)
+\* value accumulated after adding the first i terms
+RECURSIVE AccUpTo(_,_)
+AccUpTo(t, i) == IF i = 1 THEN t[1] ELSE Add31(AccUpTo(t, i - 1), t[i])
+\* raw sum of the i-th addition (adds term i+1) relative to 2^31-1: acc + t = (2^31-1) + Excess
+Excess(t, i) == AccUpTo(t, i) - (M31 - t[i + 1])
+SumLo(t) == FoldLeft(LAMBDA a, x : a + (x % 65536), 0, t)
+SumHi(t) == FoldLeft(LAMBDA a, x : a + (x \div 65536), 0, t) + (SumLo(t) \div 65536)
+Low31(t) == (SumHi(t) % 32768) * 65536 + (SumLo(t) % 65536)          \* low 31 bits of the un-reduced total
+Top(t)   == SumHi(t) \div 32768                                        \* the un-reduced total shifted right by 31
+CornerHolds(pred, st, initMode) ==
+  LET t == Terms(st, initMode)  n == Len(t)  fb == AccUpTo(t, n)
+      addp(i, d) == i + 1 <= n /\ (i < 6 \/ initMode) /\ Excess(t, i) = d
+  IN CASE pred = "add1_eq_M31" -> addp(1, 0)  [] pred = "add1_eq_2p31" -> addp(1, 1)  [] pred = "add1_eq_M31m1" -> addp(1, -1)
+       [] pred = "add2_eq_M31" -> addp(2, 0)  [] pred = "add2_eq_2p31" -> addp(2, 1)  [] pred = "add2_eq_M31m1" -> addp(2, -1)
+       [] pred = "add3_eq_M31" -> addp(3, 0)  [] pred = "add3_eq_2p31" -> addp(3, 1)  [] pred = "add3_eq_M31m1" -> addp(3, -1)
+       [] pred = "add4_eq_M31" -> addp(4, 0)  [] pred = "add4_eq_2p31" -> addp(4, 1)  [] pred = "add4_eq_M31m1" -> addp(4, -1)
+       [] pred = "add5_eq_M31" -> addp(5, 0)  [] pred = "add5_eq_2p31" -> addp(5, 1)  [] pred = "add5_eq_M31m1" -> addp(5, -1)
+       [] pred = "add6_eq_M31" -> addp(6, 0)  [] pred = "add6_eq_2p31" -> addp(6, 1)  [] pred = "add6_eq_M31m1" -> addp(6, -1)
+       [] pred = "fb_eq_M31" -> fb = M31  [] pred = "fb_eq_1" -> fb = 1  [] pred = "fb_eq_M31m1" -> fb = M31 - 1
+       [] pred = "sum_low31_top8" -> Low31(t) >= 2147483640
+       [] pred = "sum_low31_bot8" -> Low31(t) < 8
+       [] pred = "sum_onefold_ge_2p31" -> Low31(t) > M31 - Top(t)
+       [] OTHER -> FALSE
+CornerReached(k, iv, clock, pred) == CornerHolds(pred, StateBefore(k, iv, clock), clock <= 32)
 \* as octets
 ZucBytes(k, iv, nwords) ==
   LET ws == ZucKS(k, iv, nwords) IN
